@@ -257,6 +257,14 @@ def _is_pure(e, attrs=True):
   return True
 
 
+STABLE_ATTRS = set()   # instance attributes that the package only ever binds in __init__ (set by restore.restore_package)
+
+
+def _stable_self_attr(e):
+  """`self.<attr>` where <attr> is bound in constructors only: an alias of it may be substituted at every use."""
+  return isinstance(e, ast.Attribute) and isinstance(e.value, ast.Name) and e.value.id == 'self' and e.attr in STABLE_ATTRS
+
+
 _LOG_METHODS = ('debug', 'info', 'warn', 'warning', 'error', 'exception', 'critical', 'log')
 
 
@@ -381,7 +389,7 @@ def inline_new_temporaries(fnode, base_names, stats):
           changed = True
           break
         continue
-      if _is_pure(S.value, attrs=False):
+      if _is_pure(S.value, attrs=False) or _stable_self_attr(S.value):
         for u in all_uses:
           _replace_node(fnode, u, copy.deepcopy(S.value))
         blk.remove(S)
@@ -889,15 +897,28 @@ def _expr_helper(helper):
   return None
 
 
+def _classes_q(tree):
+  """[(qualified name, ClassDef)] of the classes of a module (nested classes by their dotted path)."""
+  out = []
+
+  def walk(body, prefix):
+    for st in body:
+      if isinstance(st, ast.ClassDef):
+        out.append((prefix + st.name, st))
+        walk(st.body, prefix + st.name + '.')
+  walk(tree.body, '')
+  return out
+
+
 def reclose_partials(tree, rel, inventory, stats):
   """functools.partial(Cls._NewHelper, a, b, ...) / partial(obj._NewHelper, ...) where _NewHelper is a private method that the
   reference tree does not have and that is used in no other way: turned back into a nested function of the caller that
   closes over the bound names (only names that are bound exactly once in the caller and are not loop targets are moved
   into the closure; the other bound arguments stay arguments of the partial)."""
   known = set(inventory.get(rel, []))
-  for c in [s for s in ast.walk(tree) if isinstance(s, ast.ClassDef)]:
+  for cq, c in _classes_q(tree):
     methods = dict((m.name, m) for m in c.body if isinstance(m, (ast.FunctionDef, ast.AsyncFunctionDef)))
-    new = dict((n, m) for n, m in methods.items() if (c.name + '.' + n) not in known and n.startswith('_') and not (n.startswith('__') and n.endswith('__'))
+    new = dict((n, m) for n, m in methods.items() if (cq + '.' + n) not in known and n.startswith('_') and not (n.startswith('__') and n.endswith('__'))
                and all(ast.unparse(x) == 'staticmethod' for x in m.decorator_list))
     if not new:
       continue
@@ -1050,9 +1071,9 @@ def inline_new_helpers(tree, rel, inventory, stats):
   all_methods = [m for c in ast.walk(tree) if isinstance(c, ast.ClassDef) for m in c.body if isinstance(m, (ast.FunctionDef, ast.AsyncFunctionDef))]
   dead = process_scope(mod_defs, False, '', None, callers=mod_defs + all_methods) or []
   tree.body = [s for s in tree.body if not any(s is d for d in dead)]
-  for c in [s for s in ast.walk(tree) if isinstance(s, ast.ClassDef)]:
+  for cq, c in _classes_q(tree):
     defs = [s for s in c.body if isinstance(s, (ast.FunctionDef, ast.AsyncFunctionDef))]
-    dead = process_scope(defs, True, c.name + '.', c.name) or []
+    dead = process_scope(defs, True, cq + '.', c.name) or []
     c.body = [s for s in c.body if not any(s is d for d in dead)] or [ast.Pass()]
 
 
@@ -1272,7 +1293,7 @@ def normalize_attrs(trees, stats=None):
       mapping = {}
       used = set()
       for a, fp in cur:
-        if a in base_names or not a.startswith('_') or a.startswith('__'):
+        if a in base_names or not a.startswith('_') or (a.startswith('__') and a.endswith('__')):
           continue
         if mentions.get(a, set()) - {rel}:
           continue
@@ -1290,11 +1311,12 @@ def normalize_attrs(trees, stats=None):
 
 def baseline_of_tree(trees):
   """Build the reference tables from {rel: ast module}."""
-  functions, inventory = {}, {}
+  functions, inventory, sources, class_inventory = {}, {}, {}, {}
 
   def walk(body, rel, prefix):
     for st in body:
       if isinstance(st, ast.ClassDef):
+        class_inventory.setdefault(rel, []).append(prefix + st.name)
         walk(st.body, rel, prefix + st.name + '.')
       elif isinstance(st, (ast.FunctionDef, ast.AsyncFunctionDef)):
         key = st.name
@@ -1306,6 +1328,7 @@ def baseline_of_tree(trees):
 
   def fn(node, rel, q):
     params, locs = local_defs_fp(node)
+    sources[rel + '::' + q] = ast.unparse(node)
     functions[rel + '::' + q] = {'params': params, 'locals': [[nm, fps] for nm, fps in locs], 'compares': compare_texts(node), 'augs': aug_texts(node), 'ifexps': ifexp_texts(node), 'tuple_assigns': tuple_assign_texts(node)}
     for n in own_nodes(node):
       if isinstance(n, (ast.FunctionDef, ast.AsyncFunctionDef)):
@@ -1315,4 +1338,4 @@ def baseline_of_tree(trees):
     walk(tree.body, rel, '')
     for c in [x for x in ast.walk(tree) if isinstance(x, ast.ClassDef)]:
       classes[rel + '::' + c.name] = [[a, fp] for a, fp in class_attr_fps(c)]
-  return {'functions': functions, 'inventory': inventory, 'classes': classes}
+  return {'functions': functions, 'inventory': inventory, 'classes': classes, 'sources': sources, 'class_inventory': class_inventory}
